@@ -137,6 +137,17 @@ def listing_case(h0, h1, h2, sf, ff, header, colmode='all'):
                 os.utime(f, ns=(10 ** 18 + i, 1_300_000_000_000_000_000 + 1_000_000_000 * (i * 2)))
                 files[str(f.resolve())] = b''
                 paths = [f]
+            elif code == 'procfs':
+                # a file whose fstat size (0) is not the number of bytes it yields: sizes must come from what was stored
+                pf = Path('/proc/version')
+                k = src / 'keep.bin'
+                k.write_bytes(b'constant')
+                os.utime(k, ns=(10 ** 18, 1_200_000_000_000_000_000))
+                files[str(k.resolve())] = b'constant'
+                paths = [src / 'keep.bin']
+                if pf.exists():
+                    files[str(pf)] = pf.read_bytes()
+                    paths.append(pf)
             else:
                 st = [code % 3, code // 3]
                 for p in (0, 1):
@@ -196,7 +207,7 @@ def listing_case(h0, h1, h2, sf, ff, header, colmode='all'):
                 p = fdata['path']
                 if fregex is None or re.search(fregex, p):
                     # (the mtime the harness set with utime before that snapshot, not the one read back from the record)
-                    mt = datetime.fromtimestamp(s['mtimes'][p] / 1e9, tz=timezone.utc).replace(tzinfo=None).isoformat(sep=' ', timespec='seconds')
+                    mt = datetime.fromtimestamp((fdata['metadata']['st_mtime_ns'] if p.startswith('/proc/') else s['mtimes'][p]) / 1e9, tz=timezone.utc).replace(tzinfo=None).isoformat(sep=' ', timespec='seconds')
                     want_rows.append([s['name'], s['ts'][:19], p, str(len(fdata['chunks'])), U.bytes_to_human(len(s['files'][p])),
                                       repo.props.hash_digest(s['files'][p]).hex(), mt])      # digest recomputed from the bytes, not read back
         if header and want_rows:
@@ -242,13 +253,13 @@ def listing_case(h0, h1, h2, sf, ff, header, colmode='all'):
 
 def e_listing(k: int) -> bool:
     """
-    pre: shard(9 * 9 * 4 * 5 * 5 * 2)[0] <= k < shard(9 * 9 * 4 * 5 * 5 * 2)[1]
+    pre: shard(9 * 9 * 5 * 5 * 5 * 2)[0] <= k < shard(9 * 9 * 5 * 5 * 5 * 2)[1]
     post: _
     """
-    h0, h1, h2, sf, ff, header = digits(k, [9, 9, 4, 5, 5, 2])
+    h0, h1, h2, sf, ff, header = digits(k, [9, 9, 5, 5, 5, 2])
     with NoTracing():
         cm = (h0 + h1 + h2 + sf + ff) % 3        # column selection rotates with the other digits
-        ok, msg = listing_case(h0, h1, [4, 0, 8, 'only-empty'][h2], sf, ff, header, COLMODES[cm])
+        ok, msg = listing_case(h0, h1, [4, 0, 8, 'only-empty', 'procfs'][h2], sf, ff, header, COLMODES[cm])
         tick('e_listing', [h0, h1, h2, SFILT[sf], FFILT[ff], header, COLMODES[cm]])
         if not ok:
             _say(h0, h1, h2, SFILT[sf], FFILT[ff], header, msg)
